@@ -27,6 +27,8 @@
 (*        "ld"  a text with a big group (s distinct corners, or s faces    *)
 (*              over few corners) before / after / next to a small one;    *)
 (*              shape "g": s groups of one face each                       *)
+(*        "wr"/"ld" shape "l": a "g" line of n-1, n, n+1 BYTES for the     *)
+(*              usual buffer sizes n (a long group / mesh name)            *)
 (* Values (coordinates, index patterns) are drawn by the harness from the  *)
 (* seed the check adds; this module fixes only the sizes.  Every profile   *)
 (* has a weight w (number of vertices + faces, what judging it costs), a   *)
@@ -47,6 +49,7 @@ CONSTANTS Family,        \* "stl" | "obj"
           Mults,         \* set of multiples
           MaxSize,       \* largest size emitted
           MaxCount,      \* OBJ: largest number of meshes / material ranges / groups
+          LineLens,      \* OBJ: line lengths (bytes) for the long-line cases
           SzThresholds,  \* STL: large round numbers for the sizes-only cases
           SzMults,
           CoreW,         \* profiles up to this weight are "core": the quick tier runs them for every seed
@@ -88,7 +91,7 @@ StlProfiles ==
 HasUv(a) == a % 2 = 1
 HasNrm(a) == a \div 2 = 1
 Few == 4
-Mesh(nv, nt, a, nm) == [nv |-> nv, nt |-> nt, uv |-> HasUv(a), nrm |-> HasNrm(a), nm |-> nm]
+Mesh(nv, nt, a, nm) == [nv |-> nv, nt |-> nt, uv |-> HasUv(a), nrm |-> HasNrm(a), nm |-> nm, namelen |-> 0]
 Big(shape, s, a) ==
     CASE shape = "v" -> Mesh(s, Few, a, 0)
       [] shape = "f" -> Mesh(Few + 1, s, a, 1)
@@ -136,11 +139,21 @@ AttrsFor(s, sh, p) ==
     IF sh = "v" /\ Lead(s, p) THEN {3}
     ELSE IF sh = "f" /\ Lead(s, p) THEN 0..3
     ELSE {(Ix(s) + ShapeNo(sh) + PlaceNo(p)) % 4}
+\* LINE LENGTH: a "g" line of exactly n bytes ("g " + a name of n - 2 characters), n around the
+\* usual buffer sizes (LineLens, bytes); the format puts no limit on the length of a line
+LineSizes == {n + d : n \in LineLens, d \in Deltas}
+LineWrCase(n) ==
+    LET ms == <<[Small(Ix(n) % 4) EXCEPT !.namelen = n - 2], Small(3)>> IN
+    [k |-> "wr", tag |-> "sized", enc |-> "f32", q |-> 1,
+     seeded |-> [seed |-> 0, nmesh |-> Len(ms), maxtris |-> 0, sizes |-> ms],
+     place |-> "first", shape |-> "l", size |-> n, attrs |-> Ix(n) % 4,
+     w |-> Weight(ms), rot |-> 0, core |-> TRUE]
 WrProfiles == UNION {UNION {{WrCase(s, sh, p, a) : a \in AttrsFor(s, sh, p)} : sh \in {"v", "f", "vf"}, p \in PlacesFor(s)} : s \in Sizes}
               \cup {CountCase(s, sh) : s \in {x \in Sizes : x <= MaxCount}, sh \in {"m", "n"}}
+              \cup {LineWrCase(n) : n \in LineSizes}
 
 \* texts: a group is [nv, nf, syn]; syn 0 "v", 1 "v/vt", 2 "v//vn", 3 "v/vt/vn"
-Group(nv, nf, syn) == [nv |-> nv, nf |-> nf, syn |-> syn]
+Group(nv, nf, syn) == [nv |-> nv, nf |-> nf, syn |-> syn, namelen |-> 0]
 BigGroup(shape, s, syn) == IF shape = "v" THEN Group(s, s - 2, syn) ELSE Group(Few, s, syn)
 LdCase(s, sh, p) ==
     LET syn == (Ix(s) + ShapeNo(sh) + PlaceNo(p)) % 4
@@ -157,9 +170,15 @@ GroupsCase(s) ==
      text |-> [seed |-> 0, groups |-> [i \in 1..s |-> Group(3, 1, (Ix(s) + i) % 4)]],
      place |-> "first", shape |-> "g", size |-> s, attrs |-> 0,
      w |-> 4 * s, rot |-> (RotOf(s) + 5) % Rot, core |-> 4 * s <= CoreW]
+LineLdCase(n) ==
+    [k |-> "ld", tag |-> "sized", enc |-> "lat", q |-> 1024, style |-> 0,      \* plain style: the line is exactly n bytes
+     text |-> [seed |-> 0, groups |-> <<[Group(Few, 2, n % 4) EXCEPT !.namelen = n - 2], Group(Few, 2, 3)>>],
+     place |-> "first", shape |-> "l", size |-> n, attrs |-> n % 4,
+     w |-> 2 * Few, rot |-> 0, core |-> TRUE]
 LdPlacesFor(s) == IF s \in Exact THEN {"first", "last", "twice"} ELSE {"first"}
 LdProfiles == UNION {{LdCase(s, sh, p) : sh \in {"v", "f"}, p \in LdPlacesFor(s)} : s \in {x \in Sizes : x >= 3}}
               \cup {GroupsCase(s) : s \in {x \in Sizes : x <= MaxCount}}
+              \cup {LineLdCase(n) : n \in LineSizes}
 
 Profiles == IF Family = "stl" THEN StlProfiles ELSE WrProfiles \cup LdProfiles
 
@@ -169,6 +188,10 @@ Spec == Init /\ [][Next]_c
 
 (* ---------------- properties of the specification itself --------------- *)
 ASSUME \A t \in Thresholds : t <= MaxSize => {t - 1, t, t + 1} \subseteq Sizes
+ASSUME Family = "obj" =>
+         \A n \in LineLens : \E p \in WrProfiles : \E q \in LdProfiles :
+            /\ p.shape = "l" /\ p.seeded.sizes[1].namelen + 2 = n
+            /\ q.shape = "l" /\ q.text.groups[1].namelen + 2 = n
 ASSUME Family = "obj" =>
          \A e \in Exact :
             /\ \E p \in WrProfiles : p.size = e /\ p.shape = "v" /\ p.seeded.sizes[1].nv = e /\ Len(p.seeded.sizes) > 1
